@@ -65,6 +65,7 @@ fn main() {
   }
   let ctx = Ctx { tier, replay };
   util::start_watchdog(&id);
+  sweep_stale_scratch();
 
   util::quiet_panics();
   // ord builds a fresh multi-thread tokio runtime (one worker per core) inside every
@@ -131,4 +132,22 @@ fn main() {
     }
   };
   std::process::exit(code);
+}
+
+
+/// Removes scratch directories left behind by runs that were killed (their owning process is gone).
+fn sweep_stale_scratch() {
+  for root in ["/dev/shm", "/var/tmp"] {
+    let Ok(rd) = std::fs::read_dir(root) else { continue };
+    for entry in rd.flatten() {
+      let name = entry.file_name().to_string_lossy().to_string();
+      if !name.starts_with("vcheck.") {
+        continue;
+      }
+      let Some(pid) = name.rsplit('.').next().and_then(|p| p.parse::<u32>().ok()) else { continue };
+      if !std::path::Path::new(&format!("/proc/{pid}")).exists() {
+        let _ = std::fs::remove_dir_all(entry.path());
+      }
+    }
+  }
 }
